@@ -217,7 +217,7 @@ hwloc__nolibxml_import_get_content(hwloc__xml_import_state_t state,
 {
   hwloc__nolibxml_import_state_data_t nstate = (void*) state->data;
   char *buffer = nstate->tagbuffer;
-  size_t length;
+  size_t length, rawlength, escaped;
   char *end;
 
   /* auto-closed tags have no content */
@@ -233,11 +233,44 @@ hwloc__nolibxml_import_get_content(hwloc__xml_import_state_t state,
   if (!end)
     return -1;
 
-  length = (size_t) (end-buffer);
+  /* unescape the content in place, the expected length is the unescaped one */
+  rawlength = (size_t) (end-buffer);
+  length = 0; escaped = 0;
+  while (length+escaped < rawlength) {
+    char *cur = &buffer[length+escaped];
+    if (*cur == '&' && !strncmp(cur+1, "lt;", 3)) {
+      escaped += 3;
+      buffer[length] = '<';
+    } else if (*cur == '&' && !strncmp(cur+1, "gt;", 3)) {
+      escaped += 3;
+      buffer[length] = '>';
+    } else if (*cur == '&' && !strncmp(cur+1, "amp;", 4)) {
+      escaped += 4;
+      buffer[length] = '&';
+    } else if (*cur == '&' && !strncmp(cur+1, "quot;", 5)) {
+      escaped += 5;
+      buffer[length] = '\"';
+    } else if (*cur == '&' && !strncmp(cur+1, "#10;", 4)) {
+      escaped += 4;
+      buffer[length] = '\n';
+    } else if (*cur == '&' && !strncmp(cur+1, "#13;", 4)) {
+      escaped += 4;
+      buffer[length] = '\r';
+    } else if (*cur == '&' && !strncmp(cur+1, "#9;", 3)) {
+      escaped += 3;
+      buffer[length] = '\t';
+    } else {
+      /* including a lone '&' as written by exporters that did not escape the content */
+      buffer[length] = *cur;
+    }
+    length++;
+  }
+
   if (length != expected_length)
     return -1;
   nstate->tagbuffer = end;
   *end = '\0'; /* mark as 0-terminated for now */
+  buffer[length] = '\0';
   *beginp = buffer;
   return 1;
 }
@@ -661,6 +694,7 @@ static void
 hwloc__nolibxml_export_add_content(hwloc__xml_export_state_t state, const char *buffer, size_t length)
 {
   hwloc__nolibxml_export_state_data_t ndata = (void *) state->data;
+  size_t i;
   int res;
 
   assert(!ndata->nr_children);
@@ -670,9 +704,32 @@ hwloc__nolibxml_export_add_content(hwloc__xml_export_state_t state, const char *
   }
   ndata->has_content = 1;
 
-  /* the buffer is not necessarily 0-terminated */
-  res = hwloc_snprintf(ndata->buffer, ndata->remaining, "%.*s", (int) length, buffer);
-  hwloc__nolibxml_export_update_buffer(ndata, res);
+  for(i=0; i<length; i++)
+    if (buffer[i] == '<' || buffer[i] == '>' || buffer[i] == '&')
+      break;
+  if (i == length) {
+    /* the buffer is not necessarily 0-terminated */
+    res = hwloc_snprintf(ndata->buffer, ndata->remaining, "%.*s", (int) length, buffer);
+    hwloc__nolibxml_export_update_buffer(ndata, res);
+  } else {
+    /* '<', '>' and '&' cannot appear as is in the content of an element */
+    char *escaped = malloc(length*5+1); /* escaped chars are replaced by at most 5 char */
+    char *dst = escaped;
+    if (!escaped)
+      return;
+    for(i=0; i<length; i++) {
+      switch (buffer[i]) {
+      case '<': strcpy(dst, "&lt;");  dst += 4; break;
+      case '>': strcpy(dst, "&gt;");  dst += 4; break;
+      case '&': strcpy(dst, "&amp;"); dst += 5; break;
+      default: *(dst++) = buffer[i]; break;
+      }
+    }
+    *dst = '\0';
+    res = hwloc_snprintf(ndata->buffer, ndata->remaining, "%s", escaped);
+    hwloc__nolibxml_export_update_buffer(ndata, res);
+    free(escaped);
+  }
 }
 
 static size_t
